@@ -1,7 +1,7 @@
 """C07 registry: microservice patterns (APIGateway, IdempotencyStore, OutboxRelay, Saga, Sidecar)."""
 from __future__ import annotations
 
-from props.c07_core import Backend, Drv, Entity, Event, P, R
+from props.c07_core import Backend, Drv, Entity, Event, P, PI, R
 
 from happysimulator.components.microservice import (APIGateway, IdempotencyStore, OutboxRelay, RouteConfig, Saga,
                                                     SagaStep, Sidecar)
@@ -93,9 +93,10 @@ class IdempotencyStoreDrv(Drv):
 
     def build(self, cfg):
         self.svc = _Svc("svc", cfg.L, self.h.out)
+        ttl, sweep = PI(1.0, 0.5)
         self.ids = IdempotencyStore("idem", target=self.svc,
                                     key_extractor=lambda e: e.context.get("metadata", {}).get("key"),
-                                    ttl=P(1.0), max_entries=2, cleanup_interval=P(0.5))
+                                    ttl=ttl, max_entries=2, cleanup_interval=sweep)
         return [self.svc, self.ids]
 
     def request(self, i, op):
